@@ -415,6 +415,13 @@ pub fn run(prop: &str, tier: &str, only: Option<String>) -> i32 {
         "small-scope hypothesis: nesting depth <= 3, container length <= 2/3, boundary-value leaf domains".into(),
         "Bridge to_val/from_val conversions and the chrono/bigdecimal/uuid crates are trusted".into(),
     ];
+    if prop == "C15" {
+        // sources: every operation sequence on the three BinaryInput implementations
+        let depth = if thorough { 4 } else { 3 };
+        let st = crate::p_inputs::explore("C15", depth, &run.only);
+        run.stats.merge(st);
+        run.extra.insert("source_exploration".into(), json!({"operations": 22, "depth": depth, "inputs": "all strings of length <= 3 over the 12-byte alphabet + 2 compressed frames", "counts": ["0", "1", "2", "rest", "rest+1", "2^31", "usize::MAX-pos", "usize::MAX"]}));
+    }
     let mut code = 0;
     if matches!(prop, "C07" | "C08") {
         // the (writer, reader) pairs of evolved records are explored by the evolution pass
